@@ -75,6 +75,8 @@ def impl_body(cfg, history, W):
                     for nme, f in (('damping', 2.0), ('factor_decay', 0.5), ('lr', 3.0), ('kl_clip', 2.0)):
                         if nme in fresh and isinstance(fresh[nme], (int, float)) and fresh[nme] is not None:
                             fresh[nme] = fresh[nme] * f
+                    if 'kl_clip' in fresh and fresh['kl_clip'] is None:
+                        fresh['kl_clip'] = 0.01          # a saved None (no clipping) must be restored too
                     for nme in ('factor_update_steps', 'inv_update_steps'):
                         if isinstance(fresh.get(nme, 1), int):
                             fresh[nme] = fresh.get(nme, 1) + 1
